@@ -20,6 +20,12 @@ pub enum AnyProb<T: Sc, M: SeparableNonlinearModel<ScalarType = T>> {
     SP(LevMarProblem<M, false, true>),
     MS(LevMarProblem<M, true, false>),
     MP(LevMarProblem<M, true, true>),
+    /// the problem still living inside the `FitResult` that `fit` returned: later operations
+    /// act on `result.problem` (a public field), so that the result's own accessors
+    /// (`best_fit`, `linear_coefficients`, `nonlinear_parameters`) can be queried again
+    /// after the problem inside it has moved on
+    RS(Box<FitResult<M, false>>),
+    RM(Box<FitResult<M, true>>),
 }
 
 macro_rules! each {
@@ -29,6 +35,33 @@ macro_rules! each {
             AnyProb::SP($p) => $e,
             AnyProb::MS($p) => $e,
             AnyProb::MP($p) => $e,
+            AnyProb::RS(r) => {
+                let $p = &r.problem;
+                $e
+            }
+            AnyProb::RM(r) => {
+                let $p = &r.problem;
+                $e
+            }
+        }
+    };
+}
+
+macro_rules! each_mut {
+    ($s:expr, $p:ident => $e:expr) => {
+        match $s {
+            AnyProb::SS($p) => $e,
+            AnyProb::SP($p) => $e,
+            AnyProb::MS($p) => $e,
+            AnyProb::MP($p) => $e,
+            AnyProb::RS(r) => {
+                let $p = &mut r.problem;
+                $e
+            }
+            AnyProb::RM(r) => {
+                let $p = &mut r.problem;
+                $e
+            }
         }
     };
 }
@@ -129,7 +162,7 @@ fn summarize_s<T: Sc, M: Mdl<T>>(
         coeffs,
         best_fit: best,
         best_fit_is_vector: true,
-        problem: AnyProb::SS(r.problem),
+        problem: AnyProb::RS(Box::new(r)),
         stats: ss,
         stats_obj: stats,
     }
@@ -149,7 +182,7 @@ fn summarize_m<T: Sc, M: Mdl<T>>(ok: bool, r: FitResult<M, true>) -> FitSummary<
         coeffs,
         best_fit: best,
         best_fit_is_vector: false,
-        problem: AnyProb::MS(r.problem),
+        problem: AnyProb::RM(Box::new(r)),
         stats: None,
         stats_obj: None,
     }
@@ -211,11 +244,44 @@ impl<T: Sc, M: Mdl<T>> AnyProb<T, M> {
         matches!(self, AnyProb::SP(_) | AnyProb::MP(_))
     }
     pub fn is_mrhs(&self) -> bool {
-        matches!(self, AnyProb::MS(_) | AnyProb::MP(_))
+        matches!(self, AnyProb::MS(_) | AnyProb::MP(_) | AnyProb::RM(_))
+    }
+    /// does the problem live inside a `FitResult`?
+    pub fn in_result(&self) -> bool {
+        matches!(self, AnyProb::RS(_) | AnyProb::RM(_))
+    }
+    /// take the problem out of the `FitResult` it lives in (no-op otherwise)
+    pub fn unwrap_result(self) -> Self {
+        match self {
+            AnyProb::RS(r) => AnyProb::SS(r.problem),
+            AnyProb::RM(r) => AnyProb::MS(r.problem),
+            o => o,
+        }
+    }
+    /// the accessors of the `FitResult` the problem lives in, queried now:
+    /// (nonlinear_parameters, linear_coefficients, best_fit, best_fit is a vector)
+    #[allow(clippy::type_complexity)]
+    pub fn result_view(&self) -> Option<(DVector<T>, Option<DMatrix<T>>, Option<DMatrix<T>>, bool)> {
+        match self {
+            AnyProb::RS(r) => Some((
+                r.nonlinear_parameters(),
+                r.linear_coefficients()
+                    .map(|c| DMatrix::from_column_slice(c.nrows(), 1, c.clone_owned().as_slice())),
+                r.best_fit().map(|b| DMatrix::from_column_slice(b.nrows(), 1, b.as_slice())),
+                true,
+            )),
+            AnyProb::RM(r) => Some((
+                r.nonlinear_parameters(),
+                r.linear_coefficients().map(|c| c.clone_owned()),
+                r.best_fit(),
+                false,
+            )),
+            _ => None,
+        }
     }
 
     pub fn set_params(&mut self, a: &DVector<T>) {
-        each!(self, p => p.set_params(a))
+        each_mut!(self, p => p.set_params(a))
     }
     pub fn params(&self) -> DVector<T> {
         each!(self, p => p.params())
@@ -236,6 +302,11 @@ impl<T: Sc, M: Mdl<T>> AnyProb<T, M> {
                 .map(|c| DMatrix::from_column_slice(c.nrows(), 1, c.clone_owned().as_slice())),
             AnyProb::MS(p) => p.linear_coefficients().map(|c| c.clone_owned()),
             AnyProb::MP(p) => p.linear_coefficients().map(|c| c.clone_owned()),
+            AnyProb::RS(r) => r
+                .problem
+                .linear_coefficients()
+                .map(|c| DMatrix::from_column_slice(c.nrows(), 1, c.clone_owned().as_slice())),
+            AnyProb::RM(r) => r.problem.linear_coefficients().map(|c| c.clone_owned()),
         }
     }
     /// (weighted data, number of columns the accessor's *type* promises: 1 = vector API)
@@ -257,34 +328,44 @@ impl<T: Sc, M: Mdl<T>> AnyProb<T, M> {
             }
             AnyProb::MS(p) => (p.weighted_data().clone_owned(), false),
             AnyProb::MP(p) => (p.weighted_data().clone_owned(), false),
+            AnyProb::RS(r) => {
+                let v = r.problem.weighted_data();
+                (
+                    DMatrix::from_column_slice(v.nrows(), 1, v.clone_owned().as_slice()),
+                    true,
+                )
+            }
+            AnyProb::RM(r) => (r.problem.weighted_data().clone_owned(), false),
         }
     }
     pub fn model(&self) -> &M {
         each!(self, p => p.model())
     }
     pub fn into_sequential(self) -> Self {
-        match self {
+        match self.unwrap_result() {
             AnyProb::SS(p) => AnyProb::SS(p.into_sequential()),
             AnyProb::SP(p) => AnyProb::SS(p.into_sequential()),
             AnyProb::MS(p) => AnyProb::MS(p.into_sequential()),
             AnyProb::MP(p) => AnyProb::MS(p.into_sequential()),
+            AnyProb::RS(_) | AnyProb::RM(_) => unreachable!(),
         }
     }
 
     /// `into_parallel()`; the flavour of the result is whatever the library's return type
     /// says (at the pinned commit that is the *sequential* type), absorbed by `IntoAny`
     pub fn into_parallel(self) -> Self {
-        match self {
+        match self.unwrap_result() {
             AnyProb::SS(p) => p.into_parallel().into_any(),
             AnyProb::SP(p) => p.into_parallel().into_any(),
             AnyProb::MS(p) => p.into_parallel().into_any(),
             AnyProb::MP(p) => p.into_parallel().into_any(),
+            AnyProb::RS(_) | AnyProb::RM(_) => unreachable!(),
         }
     }
 
     pub fn fit(self, cfg: &OptCfg) -> FitSummary<T, M> {
         let lm = make_lm::<T>(cfg);
-        match self {
+        match self.unwrap_result() {
             AnyProb::SS(p) => match LevMarSolver::with_solver(lm).fit(p) {
                 Ok(r) => summarize_s(true, r, None),
                 Err(r) => summarize_s(false, r, None),
@@ -301,13 +382,14 @@ impl<T: Sc, M: Mdl<T>> AnyProb<T, M> {
                 Ok(r) => summarize_m(true, r),
                 Err(r) => summarize_m(false, r),
             },
+            AnyProb::RS(_) | AnyProb::RM(_) => unreachable!(),
         }
     }
 
     /// `fit_with_statistics`; for multiple right-hand sides (no such API) falls back to `fit`.
     pub fn fit_with_statistics(self, cfg: &OptCfg) -> FitSummary<T, M> {
         let lm = make_lm::<T>(cfg);
-        match self {
+        match self.unwrap_result() {
             AnyProb::SS(p) => match LevMarSolver::with_solver(lm).fit_with_statistics(p) {
                 Ok((r, s)) => summarize_s(true, r, Some(s)),
                 Err(r) => summarize_s(false, r, None),
@@ -344,11 +426,12 @@ impl<T: Sc, M: Mdl<T>> AnyProb<T, M> {
                 )
             }};
         }
-        match self {
+        match self.unwrap_result() {
             AnyProb::SS(p) => run!(p, SS),
             AnyProb::SP(p) => run!(p, SP),
             AnyProb::MS(p) => run!(p, MS),
             AnyProb::MP(p) => run!(p, MP),
+            AnyProb::RS(_) | AnyProb::RM(_) => unreachable!(),
         }
     }
 }
@@ -360,6 +443,8 @@ impl<T: Sc, M: Mdl<T> + Clone> AnyProb<T, M> {
             AnyProb::SP(p) => AnyProb::SP(p.clone()),
             AnyProb::MS(p) => AnyProb::MS(p.clone()),
             AnyProb::MP(p) => AnyProb::MP(p.clone()),
+            AnyProb::RS(r) => AnyProb::SS(r.problem.clone()),
+            AnyProb::RM(r) => AnyProb::MS(r.problem.clone()),
         }
     }
 }
